@@ -28,6 +28,7 @@ REAL_POOL = [  # (country, option overrides): three-round runs of different char
     ("FRA", {"meat_strategy": "baseline_breeding"}), ("AUS", {"crop_disruption": "zero", "scenario": "no_resilient_foods"}),
     ("NZL", {"scenario": "seaweed"}), ("USA", {"shutoff": "continued_after_10_percent_fed"}),
     ("ARG", {"cull": "dont_eat_culled"}), ("IDN", {"meat_strategy": "feed_only_ruminants"}),
+    ("USA", {}, 0), ("IND", {"shutoff": "continued"}, 0),   # threshold overridden to the legal boundary 0
 ]
 
 
@@ -280,6 +281,32 @@ def gen_minneeds(rng, dyadic):
             "dyadic": dyadic}
 
 
+def boundary_minneeds(rng):
+    """always generated (both tiers, correspondence and audit): threshold exactly 0 (int and float), exactly 100,
+    and threshold == no-feed result (the strict `>` boundary), each on a dyadic and a float instance"""
+    out = []
+    for dyadic in (True, False):
+        for what in ("T=0(int)", "T=0.0", "T=100", "T=pf", "T=0,pf=0"):
+            c = gen_minneeds(rng, dyadic)
+            while c["mode"] == "malformed" or min(sum(c["series"][a][m] for a in ATTRS) for m in range(c["N"])) <= 0:
+                c = gen_minneeds(rng, dyadic)
+            c["pf"] = float(100.0 * min(sum(c["series"][a][m] for a in ATTRS) for m in range(c["N"])) / c["K"])
+            if what == "T=0(int)":
+                c["T"], c["T_int"] = 0.0, True
+            elif what == "T=0.0":
+                c["T"] = 0.0
+            elif what == "T=100":
+                c["T"] = 100.0
+                c["T_int"] = dyadic
+            elif what == "T=pf":
+                c["T"] = c["pf"]
+            else:
+                c["T"], c["pf"] = 0.0, 0.0
+            c["mode"] = "boundary:" + what
+            out.append(c)
+    return out
+
+
 def corpus_cases():
     out = []
     for fn in sorted(glob.glob(os.path.join(lib.VERIF, "corpus", "C18", "*.json"))):
@@ -407,6 +434,12 @@ def branch_tags(case, r):
                 t.append("bump:out_of_domain")
     elif k == "minneeds":
         t.append("min:pf>T" if case["pf"] > case["T"] else "min:pf<=T")
+        if case["T"] == 0:
+            t.append("min:T==0" + ("(int)" if case.get("T_int") else ""))
+        if case["T"] == 100:
+            t.append("min:T==100")
+        if case["T"] == case["pf"]:
+            t.append("min:T==pf")
         if "err" in r:
             t.append("min:raised:" + r["err"])
         else:
@@ -480,6 +513,7 @@ def build_cases(ctx):
     q = ctx.quick
     cases = corpus_cases()
     ncorpus = len(cases)
+    cases += boundary_minneeds(rng)
     plan = [("fill", 260 if q else 6000), ("redist", 220 if q else 5000), ("bump", 300 if q else 8000),
             ("minneeds", 160 if q else 2500)]
     for kind, n in plan:
@@ -500,17 +534,17 @@ def real_runs(ctx):
     pool = list(REAL_POOL)
     if ctx.quick:
         fixed = [pool[0], pool[5]]   # USA (plain), NZL (the special-cased constant)
-        rest = [p for p in pool if p not in fixed]
+        rest = [p for p in pool if p not in fixed and len(p) == 2]
         ctx.rng.shuffle(rest)
         pool = fixed + rest[:2]
-    return [{"country": c, "option": o} for c, o in pool]
+    return [{"country": p[0], "option": p[1], "threshold": (p[2] if len(p) > 2 else None)} for p in pool]
 
 
 def real_cases(real):
     """captured hand-offs of real runs as ordinary cases (+ the observed result)"""
     out = []
     for r in real:
-        tag = f"{r['country']}:{json.dumps(r.get('option', {}), sort_keys=True)}"
+        tag = f"{r['country']}:{json.dumps(r.get('option', {}), sort_keys=True)}:T={r.get('threshold')}"
         for rec in r.get("redist", []):
             out.append(({"kind": "redist", "r1": unhex(rec["r1"]), "r2": unhex(rec["r2"]), "mode": "real", "real": tag},
                         {"out": rec["out"]}))
@@ -574,7 +608,7 @@ def correspondence(ctx):
     ctx.notes["correspondence"] = {"cases": len(terms), "corpus_cases": ncorpus, "disagreements": nbad,
                                    "distribution": dist, "branch_counts": dict(sorted(tags.items())),
                                    "line_coverage_of_helpers(first 4000 cases)": cov,
-                                   "real_runs": [{"country": r["country"], "option": r.get("option"), "err": r.get("err"),
+                                   "real_runs": [{"country": r["country"], "option": r.get("option"), "threshold": r.get("threshold"), "err": r.get("err"),
                                                   "needs_ratio": r.get("needs_ratio"),
                                                   "captured": {k: len(r.get(k, [])) for k in ("redist", "minneeds", "bump")},
                                                   "round2_skipped": (r.get("second") or {}).get("skipped")}
